@@ -5,4 +5,5 @@ import "errors"
 var (
 	ErrMessageTruncated      = errors.New("message is truncated")
 	ErrMessageInvalidVersion = errors.New("message has invalid version")
+	ErrMessageTooLong        = errors.New("message is too long")
 )
